@@ -273,19 +273,72 @@ def build_layout(spec):
 
 
 def pdb_text(spec, ter=True):
+    """ter: True / False, or a list of booleans = which of the TER records (one per chain with polymer records,
+    in file order) are kept.  Returns (text, expect) with expect adjusted to the INPUT's own chain ends."""
     from harness import builder as B
 
     atoms, expect = build_layout(spec)
-    # chains as a list of lists so that equal ids in different specs stay separate
-    chains, cur = [], None
-    idx = 0
     per = [[] for _ in spec]
-    # atoms were appended chain by chain; split by residue count
     res = B.residues_of(atoms)
     assert len(res) == len(expect), (len(res), len(expect))
     for r, e in zip(res, expect):
         per[e["chain"]] += r
-    return B.to_pdb([c for c in per if c], ter=ter, hetatm_for=("HOH", "LIG", "NME", "NH2")), expect
+    mask = ter if isinstance(ter, list) else None
+    text = B.to_pdb([c for c in per if c], ter=True if mask is not None else ter, hetatm_for=("HOH", "LIG", "NME", "NH2"))
+    if mask is not None:
+        out, k = [], 0
+        for ln in text.splitlines():
+            if ln.startswith("TER"):
+                keep = mask[k] if k < len(mask) else True
+                k += 1
+                if not keep:
+                    continue
+            out.append(ln)
+        text = "\n".join(out) + "\n"
+    return text, apply_input_rules(spec, expect, ter)
+
+
+def end_marker(ch):
+    """Does the last polymer residue of this spec chain carry the atom set_termini takes as a chain end?"""
+    t = ch["type"]
+    if t == "pep":
+        return ch.get("oxt", True)
+    if t == "cyc":
+        return bool(ch.get("oxt")) if not ch.get("tail") else True
+    if t == "multi":
+        return True  # peptide parts end in OXT, hydrogenated strands in H3T
+    return False  # heavy-atom strand: nothing marks its 3' end
+
+
+def apply_input_rules(spec, expect, ter):
+    """The harness' own notion of chain ends, from the INPUT only: a TER record ends a chain, a change of the
+    chain-ID column ends a chain, OXT / H3T ends a chain.  Two neighbouring spec chains with the SAME id column
+    (e.g. both blank), NO TER between them and NO end marker are ONE chain by the reader's rules: the roles of the
+    two joined residues become internal.  Joins the table cannot describe (peptide-nucleotide) lose their roles."""
+    n = len(spec)
+    mask = ter if isinstance(ter, list) else [bool(ter)] * n
+    mask = list(mask) + [True] * (n - len(mask))
+    exp = [dict(e) for e in expect]
+    for k in range(n - 1):
+        a, c = spec[k], spec[k + 1]
+        if a["chain"].strip() != c["chain"].strip() or mask[k] or end_marker(a):
+            continue
+        ia = [i for i, e in enumerate(exp) if e["chain"] == k]
+        ic = [i for i, e in enumerate(exp) if e["chain"] == k + 1]
+        if a["type"] == c["type"] == "pep" and not a.get("extras"):
+            la, fc = exp[ia[-1]], exp[ic[0]]
+            la["role"] = {"C": "I", "NC": "N"}.get(la["role"], la["role"])
+            fc["role"] = {"N": "I", "NC": "C"}.get(fc["role"], fc["role"])
+        elif a["type"] == c["type"] == "na" and not a.get("extras"):
+            la, fc = exp[ia[-1]], exp[ic[0]]
+            la["role"] = {"3": "NI", "53": "5"}.get(la["role"], la["role"])
+            fc["role"] = {"5": "NI", "53": "3"}.get(fc["role"], fc["role"])
+            for i in ic:
+                exp[i]["strand"] = la["strand"]
+        else:
+            for i in ia + ic:
+                exp[i]["role"] = "X"
+    return exp
 
 
 def rand_seq(rng, n, pool=None):
@@ -296,12 +349,17 @@ def rand_seq(rng, n, pool=None):
 def gen_layout(rng):
     nch = rng.choice([1, 1, 2, 2, 3, 4])
     ids = rng.sample("ABCDEFGXYZabq", nch)
-    if rng.random() < 0.25:
-        ids[rng.randrange(nch)] = " "
+    m = rng.random()
+    if m < 0.25:  # chain-ID column blank everywhere
+        ids = [" "] * nch
+    elif m < 0.5:  # blank for some chains
+        ids = [" " if rng.random() < 0.5 else c for c in ids]
+    elif m < 0.56 and nch > 1:  # the same letter used again after a TER (finding C02-F2)
+        ids[1] = ids[0]
     spec = []
-    for cid in ids:
+    for kk, cid in enumerate(ids):
         r = rng.random()
-        start = rng.choice([1, 1, -5, 95, 998, 0])
+        start = rng.choice([1, 1, -5, 95, 998, 0]) + 60 * kk
         if r < 0.55:
             nseg = rng.choice([1, 1, 1, 2, 2, 3])
             segs = [rand_seq(rng, rng.choice([1, 2, 2, 3, 4])) for _ in range(nseg)]
@@ -329,7 +387,19 @@ def gen_layout(rng):
             ex.append(rng.choice(["wat", "wat", "lig", "NME", "NH2"]))
         ch["extras"] = ex
         spec.append(ch)
-    return {"spec": spec, "ter": rng.random() < 0.8, "neutraln": rng.random() < 0.25, "neutralc": rng.random() < 0.25}
+    t = rng.random()
+    if t < 0.4:
+        ter = True  # n TER records for n chains
+    elif t < 0.5:
+        ter = False  # none
+    elif t < 0.65:
+        ter = [True] * (nch - 1) + [False]  # n-1: none after the last chain
+    elif t < 0.8:
+        one = rng.randrange(nch)
+        ter = [i == one for i in range(nch)]  # exactly one
+    else:
+        ter = [rng.random() < 0.5 for _ in range(nch)]
+    return {"spec": spec, "ter": ter, "neutraln": rng.random() < 0.25, "neutralc": rng.random() < 0.25}
 
 
 # ==================================================================================
@@ -359,20 +429,41 @@ def termini_case(lay):
     text, _ = pdb_text(lay["spec"], ter=lay["ter"])
     # the hidden-end markers (OXT; H3T or a residue name ending in 3) are read from the INPUT records, not from the
     # residue objects: an atom dropped or renamed while the residue is built shows up as a disagreement
-    in_names, by_serial, key = [], {}, None
+    in_names, by_serial, key, in_where, nter = [], {}, None, [], 0
     for ln in text.splitlines():
         if ln.startswith(("ATOM", "HETATM")):
             k_ = (ln[17:20], ln[21], ln[22:27])
             if k_ != key:
-                in_names.append((ln[17:20].strip(), set()))
+                in_names.append((ln[17:20].strip(), set(), ln.startswith("ATOM")))
+                in_where.append((ln[21], nter))  # chain-ID column, number of TER records before it
                 key = k_
             in_names[-1][1].add(ln[12:16].strip())
             by_serial[int(ln[6:11])] = len(in_names) - 1
         elif ln.startswith("TER"):
             key = None
+            nter += 1
     sb = B.setup_biomolecule(text, termini=False)
     bio = sb["biomolecule"]
     rid = {id(r): i for i, r in enumerate(bio.residues)}
+    # chain assembly, judged from the input alone: two consecutive polymer (ATOM-record) residues of the file are in
+    # the same chain iff their chain-ID columns are equal and no TER record stands between them (HETATM groups listed
+    # after a chain's TER under the chain's id are the usual PDB layout and are not judged)
+    code_chain = {}
+    for ci, ch in enumerate(bio.chains):
+        for r in ch.residues:
+            if r.atoms:
+                code_chain[by_serial[r.atoms[0].serial]] = ci
+    assembly = []
+    poly = [i for i in range(len(in_names)) if in_names[i][2] and i in code_chain]
+    for i, j in zip(poly, poly[1:]):
+        same_in = in_where[i] == in_where[j]
+        same_code = code_chain[i] == code_chain[j]
+        if same_in != same_code:
+            if same_code:
+                cond = ("blank-id" if in_where[i][0] == " " and in_where[j][0] == " " else "same-id" if in_where[i][0] == in_where[j][0] else "different-id") + "-chains-merged" + ("-across-TER" if in_where[i][1] != in_where[j][1] else "")
+            else:
+                cond = "chain-split-without-TER-or-id-change"
+            assembly.append((cond, in_names[i][0], in_names[j][0]))
     chains = []
     pos_n, pos_c = {}, {}
     for ch in bio.chains:
@@ -386,7 +477,7 @@ def termini_case(lay):
                 pos_n[i] = r.map["N"].coords
             if hasc:
                 pos_c[i] = r.map["C"].coords
-            iname, inames = in_names[by_serial[r.atoms[0].serial]]
+            iname, inames, _ = in_names[by_serial[r.atoms[0].serial]]
             h3t = "H3T" in inames or iname.endswith("3")
             ds.append(f"mkrd {i} {kind_of(r)} {b(r.name in ('NH2', 'NME'))} {b('OXT' in inames)} {b(h3t)} {b(hasn)} {b(hasc)} {b(nh2)}")
         chains.append(f"({core.coq_string(ch.chain_id)}, {core.coq_list(ds)})")
@@ -410,7 +501,7 @@ def termini_case(lay):
     except IndexError:
         impl = "IndexError"
     nsplit = len(bio.chains) - len(chains)
-    return term, impl, {"chains": len(chains), "splits": nsplit, "cyclic": sum(1 for c in lay["spec"] if c["type"] == "cyc"), "keys_ok": keys_ok}
+    return term, impl, {"assembly": assembly, "blank": sum(1 for w in in_where if w[0] == " "), "nter": nter, "chains": len(chains), "splits": nsplit, "cyclic": sum(1 for c in lay["spec"] if c["type"] == "cyc"), "keys_ok": keys_ok}
 
 
 def corr_termini(ctx, n):
@@ -455,6 +546,11 @@ def corr_termini(ctx, n):
             ctx.count("termini:cyclic")
         if impl == "IndexError":
             ctx.count("termini:IndexError")
+        if info["blank"]:
+            ctx.count(f"termini:blank-ids,TER={min(info['nter'], 3)}{'+' if info['nter'] > 3 else ''}")
+        ctx.evaluated(("assembly", core.sha(lay)), info["blank"] > 0 or isinstance(lay["ter"], list))
+        for cond, a_, b_ in info["assembly"][:1]:
+            ctx.fail({"site": "Biomolecule.__init__ chain assembly", "condition": cond}, f"input chain ends (TER / chain-ID change) not respected between {a_} and {b_}: {cond}", {"kind": "assembly", "layout": lay})
         if impl != model:
             ctx.cov["correspondence_disagreements"] += 1
             ok = False
@@ -484,7 +580,8 @@ def run_case(ctx, case):
         miss = {id(a) for a in misses}
         cap["res"] = [
             {"name": r.name, "ffname": getattr(r, "ffname", r.name), "charge": r.charge, "atoms": [a.name for a in r.atoms], "missing": [a.name for a in r.atoms if id(a) in miss],
-             "exact": str(sum((Decimal(repr(a.ffcharge)) for a in r.atoms if a.ffcharge), Decimal(0))), "resseq": r.res_seq, "chain": r.chain_id}
+             "exact": str(sum((Decimal(repr(a.ffcharge)) for a in r.atoms if a.ffcharge), Decimal(0))), "resseq": r.res_seq, "chain": r.chain_id,
+             "serial0": r.atoms[0].serial if r.atoms else 10 ** 9}
             for r in self.residues
         ]
         cap["ff"] = ff_
@@ -557,6 +654,11 @@ def judge(ctx, case, out, stats):
     if len(res) != len(exp):
         ctx.fail({"site": "Biomolecule residues", "condition": "residue-count", "ff": ff}, f"{len(exp)} residues built, {len(res)} after processing", tag)
         return
+    # the code orders chains by (possibly re-assigned) chain id: bring its residues back into file order
+    order = sorted(range(len(res)), key=lambda i: res[i]["serial0"])
+    res = [res[i] for i in order]
+    if out["pqr"] is not None and len(out["pqr"]) == len(order):
+        out = dict(out, pqr=[out["pqr"][i] for i in order])
     ffobj = out["ffobj"]
     if out.get("float_total") is not None:
         stats["float_err_max"] = max(stats.get("float_err_max", 0.0), abs(Decimal(repr(float(out["float_total"]))) - out["exact_total"]))
@@ -707,6 +809,25 @@ def other_cases(rng, thorough):
     return cases
 
 
+def blank_chain_cases():
+    """Blank chain-ID column with 0 / 1 / n-1 / n TER records (used by C02 only: the code re-letters and re-orders
+    these chains, judge() re-aligns residues by input serial).  Roles come from the input (apply_input_rules)."""
+    cases = []
+    for ff in FFS:
+        # blank chain-ID column with 0 / 1 / n-1 / n TER records; roles come from the input (apply_input_rules)
+        two = lambda oxt: [{"type": "pep", "chain": " ", "segments": [["ALA", "GLY", "SER"]], "oxt": oxt, "start": 1, "extras": []},
+                           {"type": "pep", "chain": " ", "segments": [["GLY", "LYS"]], "oxt": oxt, "start": 11, "extras": []}]
+        for oxt in (False, True):
+            for ter in ([True, False], [True, True], [False, False]):
+                cases.append({"spec": two(oxt), "ter": ter, "ff": ff, "opts": []})
+        cases.append({"spec": [{"type": "pep", "chain": " ", "segments": [["SER", "ASP"]], "oxt": False, "start": 1, "extras": ["wat"]},
+                               {"type": "pep", "chain": "A", "segments": [["GLY", "ALA", "LYS"]], "oxt": False, "start": 21, "extras": []},
+                               {"type": "pep", "chain": " ", "segments": [["THR", "GLU"]], "oxt": False, "start": 41, "extras": ["wat"]}], "ter": [True, True, False], "ff": ff, "opts": []})
+        cases.append({"spec": [{"type": "na", "chain": " ", "seq": ["A", "C", "G"], "start": 1, "extras": []},
+                               {"type": "na", "chain": " ", "seq": ["T", "A"], "start": 11, "extras": []}], "ter": [True, False], "ff": ff, "opts": []})
+    return cases
+
+
 def search(ctx, volume, seeds=()):
     stats = {}
     cases = []
@@ -714,6 +835,7 @@ def search(ctx, volume, seeds=()):
     for sh in shifts:
         cases += triple_cases(ctx.rng, FFS, sh)
     cases += other_cases(ctx.rng, ctx.thorough or volume > 1)
+    cases += blank_chain_cases()
     for lay in seeds:  # layouts on which the termini correspondence disagreed
         for ff in ("AMBER", "PARSE"):
             opts = (["--neutraln"] if lay.get("neutraln") else []) + (["--neutralc"] if lay.get("neutralc") else [])
@@ -776,6 +898,11 @@ def run(ctx):
 
 def replay(ctx, data):
     case = data["case"]
+    if case.get("kind") == "assembly":
+        sys.path.insert(0, str(core.VERIF / "gen"))
+        _, _, info = termini_case(case["layout"])
+        print("replay:", "FAILS " + str(info["assembly"][:2]) if info["assembly"] else "passes")
+        return 1 if info["assembly"] else 0
     if case.get("kind") in ("set_state", "nuc_state", "termini"):
         print("replay: correspondence case; re-run ./check C02 with the same seed")
         return 1
